@@ -83,7 +83,8 @@ structure Inv (s : St) : Prop where
   hstk : (s.patches, s.stdouts, s.sysStdout) = expStacks s.gpc s.tpc
   hpend : s.pending = true → s.claim = some .g
   htimed : s.timedOut = (s.claim == some .g && s.gpc != .term)
-  hexit : s.claim = some .t → s.tExit ≠ .sysExit
+  hexit : s.tExit = .sysExit → s.claim = some .g
+  hcap : s.tpc = .fCap → s.tExit ≠ .normal
   hfb : s.feedback = expFb s.claim s.gpc s.tpc s.tExit
   hexc : s.exc = expExc s.claim s.gpc s.tpc s.tExit
   hnext : s.nextId = expNext s.claim s.gpc s.tpc
